@@ -4,7 +4,7 @@ from formula import Or, And, Not, atom
 import schema as S
 import common
 from common import CERT_FN, CSR_FN, CRL_FN
-from interp import core, places, calls_of, Interp, StructV, PhiV, Via, MutV, IndexV, CallV, Const
+from interp import core, places, calls_of, Interp, StructV, PhiV, Via, MutV, IndexV, CallV, Const, OpV
 
 PROP = "C05"
 CONFIGS_QUICK = ["K1", "K2", "K3"]
@@ -120,6 +120,10 @@ def check_serial(cfg, cert, rep):
                 if isinstance(m, int) and (m & 0x80) == 0 and m != 0:
                     masked = True
         base = core(mv.base)
+        fills = [o for o in mv.ops if o[0] == "call" and o[1] in ("copy_from_slice", "clone_from_slice") and len(o) == 3]
+        if isinstance(mv.base, OpV) and mv.base.op == "repeat" and len(fills) == 1 and mv.ops[0] is fills[0]:
+            # a zeroed fixed-size buffer filled with the digest prefix: `let mut sl = [0u8; 20]; sl.copy_from_slice(&h[0..20])`
+            base = core(fills[0][2])
         if isinstance(base, IndexV):
             rb = common.range_bounds(cert.I, base.idx)
             if rb and rb[0] == 0 and 1 <= rb[1] <= 20:
